@@ -1,57 +1,141 @@
 (* C04 -- No dangling reference under any interleaving of writers.
    Model: theories/Conc.v - any number of threads running any API calls, one atomic micro-step per
    scheduling point of the code (every lock acquisition, the intent registration, the CAS rename,
-   append+apply, every unlink, the orphan re-validation), every schedule. *)
+   append+apply, every unlink, the orphan re-validation), every schedule.
+   Faults: the model has two fault parameters, bad (obstructed blob paths: unlink / rename onto /
+   read fail) and ckbad (checkpoints fail).  Every theorem of this file holds for ARBITRARY bad and
+   ckbad -- faults do not excuse dangling references -- except the quiescent exactness clause, which
+   a failed deletion obviously breaks (it needs: no obstructed path, or no call returned an error). *)
 From Cas Require Import Conc.
-From CasProofs Require Import ConcInv ConcProofs ConcExamples.
+From CasProofs Require Import ConcInv ConcProofs ConcExamples ConcFault.
 From CasProps Require Import ConcSetting.
 
 Theorem C04_no_dangling :
-  forall H cmp nops thr0 cas0, ConcSetting H cmp thr0 cas0 ->
-  forall g, reachable H cmp nops thr0 cas0 g ->
+  forall H cmp nops bad ckbad thr0 cas0, ConcSetting H cmp thr0 cas0 ->
+  forall g, reachable H cmp nops bad ckbad thr0 cas0 g ->
   forall k it, sm_get cmp (km (g_idx g)) k = Some it ->
     exists c, sm_get lex_cmp (g_cas g) (ihash it) = Some c /\ H c = ihash it /\ len c = isize it.
 Proof.
-  intros H cmp nops thr0 cas0 (A & B & C & D & E & F & G & I).
-  exact (ConcProofs.C04_no_dangling H cmp A B C D nops thr0 E cas0 F G I).
+  intros H cmp nops bad ckbad thr0 cas0 (A & B & C & D & E & F & G & I).
+  exact (ConcProofs.C04_no_dangling H cmp A B C D nops bad ckbad thr0 E cas0 F G I).
 Qed.
 Print Assumptions C04_no_dangling.
 
 (* an in-flight commit (after its rename, before its apply) has its blob and is protected *)
 Theorem C04_commit_window_protected :
-  forall H cmp nops thr0 cas0, ConcSetting H cmp thr0 cas0 ->
-  forall g t ts k h sz, reachable H cmp nops thr0 cas0 g -> tget (g_thr g) t = Some ts ->
+  forall H cmp nops bad ckbad thr0 cas0, ConcSetting H cmp thr0 cas0 ->
+  forall g t ts k h sz, reachable H cmp nops bad ckbad thr0 cas0 g -> tget (g_thr g) t = Some ts ->
     in_window (t_pc ts) (WPut k h sz) ->
     (exists c, sm_get lex_cmp (g_cas g) h = Some c /\ H c = h /\ len c = sz)
     /\ sm_get lex_cmp (g_byhash g) h <> None.
 Proof.
-  intros H cmp nops thr0 cas0 (A & B & C & D & E & F & G & I).
-  exact (ConcProofs.C04_commit_window_protected H cmp A B C D nops thr0 E cas0 F G I).
+  intros H cmp nops bad ckbad thr0 cas0 (A & B & C & D & E & F & G & I).
+  exact (ConcProofs.C04_commit_window_protected H cmp A B C D nops bad ckbad thr0 E cas0 F G I).
 Qed.
 Print Assumptions C04_commit_window_protected.
 
 (* no step of any thread (put, remove, range remove, checkpoint, orphan clean-up) deletes a blob
    that a key references or that an in-flight commit still needs *)
 Theorem C04_never_deletes_protected :
-  forall H cmp nops thr0 cas0, ConcSetting H cmp thr0 cas0 ->
-  forall g t g', reachable H cmp nops thr0 cas0 g -> cstep H cmp nops g t = Some g' ->
+  forall H cmp nops bad ckbad thr0 cas0, ConcSetting H cmp thr0 cas0 ->
+  forall g t g', reachable H cmp nops bad ckbad thr0 cas0 g -> cstep H cmp nops bad ckbad g t = Some g' ->
   forall h, sm_get lex_cmp (g_cas g) h <> None -> sm_get lex_cmp (g_cas g') h = None ->
     IndexProofs.count_refs (km (g_idx g)) h = 0%N /\ sm_get lex_cmp (g_byhash g) h = None.
 Proof.
-  intros H cmp nops thr0 cas0 (A & B & C & D & E & F & G & I).
-  exact (ConcProofs.C04_never_deletes_protected H cmp A B C D nops thr0 E cas0 F G I).
+  intros H cmp nops bad ckbad thr0 cas0 (A & B & C & D & E & F & G & I).
+  exact (ConcProofs.C04_never_deletes_protected H cmp A B C D nops bad ckbad thr0 E cas0 F G I).
 Qed.
 Print Assumptions C04_never_deletes_protected.
 
-(* C07 under concurrency: at quiescence the CAS directory holds exactly the referenced blobs *)
+(* C07 under concurrency: at quiescence the CAS directory holds exactly the referenced blobs,
+   provided no blob path is obstructed or no call of the run returned an I/O error (a failed
+   deletion leaves its blob behind; ckbad plays no role) *)
 Theorem C04_C07_quiescent_exact :
-  forall H cmp nops thr0 cas0, ConcSetting H cmp thr0 cas0 ->
-  forall g, cas0 = [] -> reachable H cmp nops thr0 cas0 g -> all_finished g = true ->
+  forall H cmp nops bad ckbad thr0 cas0, ConcSetting H cmp thr0 cas0 ->
+  forall g, cas0 = [] -> reachable H cmp nops bad ckbad thr0 cas0 g -> all_finished g = true ->
+  (forall h, bad h = false) \/ (forall t ts, tget (g_thr g) t = Some ts -> ~ In CErr (t_res ts)) ->
   forall h, sm_get lex_cmp (g_cas g) h <> None <-> (exists k it, In (k, it) (km (g_idx g)) /\ ihash it = h).
 Proof.
-  intros H cmp nops thr0 cas0 (A & B & C & D & E & F & G & I).
-  exact (ConcProofs.C07_quiescent_exact H cmp A B C D nops thr0 E cas0 F G I).
+  intros H cmp nops bad ckbad thr0 cas0 (A & B & C & D & E & F & G & I).
+  exact (ConcProofs.C07_quiescent_exact H cmp A B C D nops bad ckbad thr0 E cas0 F G I).
 Qed.
 Print Assumptions C04_C07_quiescent_exact.
 
+(* the fault-free form *)
+Theorem C04_C07_quiescent_exact_nofaults :
+  forall H cmp nops bad ckbad thr0 cas0, ConcSetting H cmp thr0 cas0 -> NoFaults bad ckbad ->
+  forall g, cas0 = [] -> reachable H cmp nops bad ckbad thr0 cas0 g -> all_finished g = true ->
+  forall h, sm_get lex_cmp (g_cas g) h <> None <-> (exists k it, In (k, it) (km (g_idx g)) /\ ihash it = h).
+Proof.
+  intros H cmp nops bad ckbad thr0 cas0 (A & B & C & D & E & F & G & I) [NB _] g E0 R AF.
+  exact (ConcProofs.C07_quiescent_exact_nofaults H cmp A B C D nops bad ckbad thr0 E cas0 F G I
+           g E0 R AF NB).
+Qed.
+Print Assumptions C04_C07_quiescent_exact_nofaults.
+
+(* ---- the fault paths (finding F6) ---- *)
+
+(* faults do not excuse dangling references: C04_no_dangling above IS the statement with faults;
+   restated under the name of the fault study *)
+Theorem C04_no_dangling_with_faults :
+  forall H cmp nops bad ckbad thr0 cas0, ConcSetting H cmp thr0 cas0 ->
+  forall g, reachable H cmp nops bad ckbad thr0 cas0 g ->
+  forall k it, sm_get cmp (km (g_idx g)) k = Some it ->
+    exists c, sm_get lex_cmp (g_cas g) (ihash it) = Some c /\ H c = ihash it /\ len c = isize it.
+Proof.
+  intros H cmp nops bad ckbad thr0 cas0 (A & B & C & D & E & F & G & I).
+  exact (ConcFault.C04_no_dangling_with_faults H cmp A B C D nops bad ckbad thr0 E cas0 F G I).
+Qed.
+Print Assumptions C04_no_dangling_with_faults.
+
+(* the by_hash ledger is exact in every reachable state, whatever fails: the count of h is the
+   number of threads whose put of h is registered and not yet released (inflight = the number of
+   threads parked between commit.rename and the release in apply_put_op, or at guard_drop.lock_I).
+   In particular the error exit of a failed delete_blobs does not release the put's intent a
+   second time (finding F6), and the reverted intent of a failed rename is released exactly once *)
+Theorem C04_failed_delete_keeps_other_intents :
+  forall H cmp nops bad ckbad thr0 cas0, ConcSetting H cmp thr0 cas0 ->
+  forall g, reachable H cmp nops bad ckbad thr0 cas0 g ->
+    sorted lex_cmp (g_byhash g) /\
+    forall h, sm_get lex_cmp (g_byhash g) h =
+              if (inflight H g h =? 0)%N then None else Some (inflight H g h).
+Proof.
+  intros H cmp nops bad ckbad thr0 cas0 (A & B & C & D & E & F & G & I).
+  exact (ConcFault.C04_failed_delete_keeps_other_intents H cmp A B C D nops bad ckbad thr0 E cas0 F G I).
+Qed.
+Print Assumptions C04_failed_delete_keeps_other_intents.
+
+(* no step of a thread (a failing unlink, a reverted intent, ...) unprotects the hash of an
+   intent registered by another thread *)
+Theorem C04_registered_stays_protected :
+  forall H cmp nops bad ckbad thr0 cas0, ConcSetting H cmp thr0 cas0 ->
+  forall g t g' u tsu h, reachable H cmp nops bad ckbad thr0 cas0 g ->
+    cstep H cmp nops bad ckbad g t = Some g' -> u <> t -> tget (g_thr g) u = Some tsu ->
+    reg H (t_pc tsu) h = true -> sm_get lex_cmp (g_byhash g') h <> None.
+Proof.
+  intros H cmp nops bad ckbad thr0 cas0 (A & B & C & D & E & F & G & I).
+  exact (ConcFault.C04_registered_stays_protected H cmp A B C D nops bad ckbad thr0 E cas0 F G I).
+Qed.
+Print Assumptions C04_registered_stays_protected.
+
+(* the obstructions may appear DURING the run (a run from a reachable state continued under a
+   larger bad): still no dangling reference *)
+Theorem C04_no_dangling_late_faults :
+  forall H cmp nops bad ckbad thr0 cas0, ConcSetting H cmp thr0 cas0 ->
+  forall bad' ckbad' g sched, (forall x, bad x = true -> bad' x = true) ->
+    reachable H cmp nops bad ckbad thr0 cas0 g ->
+    let g' := crun H cmp nops bad' ckbad' g sched in
+    forall k it, sm_get cmp (km (g_idx g')) k = Some it ->
+    exists c, sm_get lex_cmp (g_cas g') (ihash it) = Some c /\ H c = ihash it /\ len c = isize it.
+Proof.
+  intros H cmp nops bad ckbad thr0 cas0 (A & B & C & D & E & F & G & I).
+  exact (ConcFault.C04_no_dangling_late_faults H cmp A B C D nops bad ckbad thr0 E cas0 F G I).
+Qed.
+Print Assumptions C04_no_dangling_late_faults.
+
 Example C04_nonvacuous := ConcExamples.progA_never_missing.
+(* the F6 schedule: fixed model (k3 visible, its blob present, thread 2's put returned CErr) and
+   the pre-fix error path (k3 visible, blob absent) *)
+Example C04_F6_fixed := ConcFault.F6_fixed_run.
+Example C04_F6_fixed_no_dangling := ConcFault.F6_fixed_no_dangling.
+Example C04_F6_prefix_refuted := ConcFault.F6_prefix_refuted.
